@@ -51,11 +51,13 @@ pub(crate) enum Wr {
 
 pub(crate) const STEPS: usize = 4;
 
-/// the scripted local byte stream
-pub(crate) struct ScriptIo {
+/// the state of the scripted local byte stream.  It lives in a `static`: inside the bridge struct
+/// it would be moved (memcpy) together with symbolic data bytes, after which CBMC no longer folds the
+/// script position and explores every step kind at every call (measured: 5 loop iterations of
+/// garbage, > 24 GB).
+pub(crate) struct ScriptState {
     // ---- read half (local -> mux)
     pub rd: [Rd; STEPS],
-    pub rd_data: [[u8; 2]; STEPS],
     pub rd_len: [usize; STEPS],
     pub rd_i: usize,
     pub rd_off: usize,
@@ -75,11 +77,10 @@ pub(crate) struct ScriptIo {
     pub shutdown_result: Wr,
 }
 
-impl ScriptIo {
-    pub(crate) fn new() -> Self {
-        ScriptIo {
+impl ScriptState {
+    pub(crate) const fn new() -> Self {
+        ScriptState {
             rd: [Rd::Pending; STEPS],
-            rd_data: [[0; 2]; STEPS],
             rd_len: [0; STEPS],
             rd_i: 0,
             rd_off: 0,
@@ -110,6 +111,31 @@ fn an_error() -> io::Error {
     io::Error::from(io::ErrorKind::ConnectionReset)
 }
 
+static mut SCRIPT: ScriptState = ScriptState::new();
+/// the data bytes handed out by the read half live in their OWN static: copying them into the Push
+/// frame (memcpy out of this object) otherwise makes CBMC treat the whole script state as possibly
+/// written, and the script position stops folding (measured by bisection: DESIGN.md 9.6)
+static mut RD_DATA: [[u8; 2]; STEPS] = [[0; 2]; STEPS];
+#[allow(static_mut_refs)]
+pub(crate) fn rd_data() -> &'static mut [[u8; 2]; STEPS] {
+    unsafe { &mut RD_DATA }
+}
+/// the harness's view of the script
+#[allow(static_mut_refs)]
+pub(crate) fn script() -> &'static mut ScriptState {
+    unsafe { &mut SCRIPT }
+}
+/// the local byte stream handed to the bridge: a handle to the script
+pub(crate) struct ScriptIo;
+impl ScriptIo {
+    pub(crate) fn new() -> &'static mut ScriptState {
+        let s = script();
+        *s = ScriptState::new();
+        *rd_data() = [[0; 2]; STEPS];
+        s
+    }
+}
+
 impl AsyncRead for ScriptIo {
     fn poll_read(self: Pin<&mut Self>, _cx: &mut Context<'_>, _buf: &mut tokio::io::ReadBuf<'_>) -> Poll<io::Result<()>> {
         unreachable!("the bridge reads the local side through AsyncBufRead only")
@@ -117,10 +143,18 @@ impl AsyncRead for ScriptIo {
 }
 impl AsyncBufRead for ScriptIo {
     fn poll_fill_buf(self: Pin<&mut Self>, _cx: &mut Context<'_>) -> Poll<io::Result<&[u8]>> {
-        let this = self.get_mut();
+        let this = script();
         let i = if this.rd_i < STEPS { this.rd_i } else { STEPS - 1 };
         match this.rd[i] {
-            Rd::Data => Poll::Ready(Ok(&this.rd_data[i][this.rd_off..this.rd_len[i]])),
+            // literal slice lengths: a length that CBMC cannot fold would make the allocation of
+            // the Push frame symbolic in size (intractable, DESIGN.md 2.2 cost rule i)
+            Rd::Data => {
+                if this.rd_len[i] == 1 {
+                    Poll::Ready(Ok(&rd_data()[i][0..1]))
+                } else {
+                    Poll::Ready(Ok(&rd_data()[i][0..2]))
+                }
+            }
             Rd::Pending => {
                 this.fill_pending += 1;
                 Poll::Pending
@@ -136,20 +170,16 @@ impl AsyncBufRead for ScriptIo {
         }
     }
     fn consume(self: Pin<&mut Self>, amt: usize) {
-        let this = self.get_mut();
+        let this = script();
         let i = this.rd_i;
-        assert!(i < STEPS && this.rd[i] == Rd::Data && this.rd_off + amt <= this.rd_len[i], "SCRIPT: consume beyond the data handed out");
-        this.rd_off += amt;
+        assert!(i < STEPS && this.rd[i] == Rd::Data && amt == this.rd_len[i], "SCRIPT: the bridge consumes exactly the chunk it was handed");
         this.consumed += amt;
-        if this.rd_off == this.rd_len[i] {
-            this.rd_i += 1;
-            this.rd_off = 0;
-        }
+        this.rd_i += 1;
     }
 }
 impl AsyncWrite for ScriptIo {
     fn poll_write(self: Pin<&mut Self>, _cx: &mut Context<'_>, buf: &[u8]) -> Poll<io::Result<usize>> {
-        let this = self.get_mut();
+        let this = script();
         let i = if this.wr_i < STEPS { this.wr_i } else { STEPS - 1 };
         match this.wr[i] {
             Wr::Accept => {
@@ -175,11 +205,11 @@ impl AsyncWrite for ScriptIo {
         }
     }
     fn poll_flush(self: Pin<&mut Self>, _cx: &mut Context<'_>) -> Poll<io::Result<()>> {
-        self.get_mut().flushes += 1;
+        script().flushes += 1;
         Poll::Ready(Ok(()))
     }
     fn poll_shutdown(self: Pin<&mut Self>, _cx: &mut Context<'_>) -> Poll<io::Result<()>> {
-        let this = self.get_mut();
+        let this = script();
         this.shutdowns += 1;
         match this.shutdown_result {
             Wr::Accept => Poll::Ready(Ok(())),
@@ -214,7 +244,7 @@ pub(crate) struct Bridge {
 }
 impl Bridge {
     fn poll(&mut self) -> Poll<io::Result<(usize, usize)>> {
-        self.b.other.reset_counters();
+        script().reset_counters();
         // SAFETY: never moved after the first poll, never dropped
         let p = unsafe { Pin::new_unchecked(&mut *self.b) };
         let w = unsafe { Waker::from_raw(RawWaker::new(core::ptr::null(), &VTABLE)) };
@@ -225,23 +255,23 @@ impl Bridge {
 }
 
 /// the mux side: stream A with `credit`, its slot data (the task's end), the world's queues
-fn setup(credit: u32, io: ScriptIo) -> (Bridge, crate::EstablishedStreamData, World) {
+fn setup(credit: u32, _io: &'static mut ScriptState) -> (Bridge, crate::EstablishedStreamData, World) {
     let w = world(4, 2, false, 1);
     let (s, d) = mk_stream(&w, crate::task::verif_kani_table::A, credit);
-    let b = Bridge { b: core::mem::ManuallyDrop::new(CopyBidirectional::new(s, io)) };
+    let b = Bridge { b: core::mem::ManuallyDrop::new(CopyBidirectional::new(s, ScriptIo)) };
     (b, d, w)
 }
 
 /// (d) for the direction mux -> local
 fn read_dir_has_wakeup(b: &Bridge, d: &crate::EstablishedStreamData) -> bool {
     matches!(b.b.read_state, ReadState::Done(_))
-        || b.b.other.write_pending > 0
+        || script().write_pending > 0
         || (b.b.us.buf.is_empty() && b.b.us.rx_frame_rx.len() == 0 && d.sender.is_some())
 }
 /// (d) for the direction local -> mux
 fn write_dir_has_wakeup(b: &Bridge) -> bool {
     matches!(b.b.write_state, WriteState::Done(_))
-        || b.b.other.fill_pending > 0
+        || script().fill_pending > 0
         || (b.b.us.psh_send_remaining.load(Ordering::Relaxed) == 0 && !b.b.us.finish_sent.load(Ordering::Relaxed))
 }
 
@@ -265,13 +295,13 @@ fn b_relay_to_local_partial_write() {
     assert!(matches!(p, Poll::Pending), "C13.r.partial.pending: more to do in both directions");
     core::mem::forget(p);
     let k = if short { 1 } else { 2 };
-    assert!(b.b.other.written_n == k && b.b.other.written[0] == data[0] && (short || b.b.other.written[1] == data[1]),
+    assert!(script().written_n == k && script().written[0] == data[0] && (short || script().written[1] == data[1]),
         "C13.r.bytes: the local side received exactly the first bytes of the frame, in order");
     assert!(b.b.us.buf.len() == 2 - k && (!short || b.b.us.buf[0] == data[1]), "C13.r.remainder: what the local side did not take stays buffered, nothing skipped or repeated");
     assert!(matches!(b.b.read_state, ReadState::Transferring(n) if n == k), "C13.r.count: byte counter == bytes relayed");
     assert!(out_empty(&mut w.tx_msg_rx) || b.b.us.psh_recvd_since == 0, "C13.r.ack_only: at most an Acknowledge leaves on this path");
     assert!(read_dir_has_wakeup(&b, &d) && write_dir_has_wakeup(&b), "C13.wakeup: a Pending bridge has a wake-up source in every unfinished direction");
-    assert!(b.b.other.shutdowns == 0 && matches!(b.b.write_state, WriteState::Transferring(0)), "C13.r.other_dir_untouched");
+    assert!(script().shutdowns == 0 && matches!(b.b.write_state, WriteState::Transferring(0)), "C13.r.other_dir_untouched");
     core::mem::forget((b, d, w));
 }
 
@@ -289,10 +319,10 @@ fn b_mux_eof_half_closes_local() {
     let p = b.poll();
     assert!(matches!(p, Poll::Pending), "C13.eof.other_dir_open: the bridge goes on for the opposite direction");
     core::mem::forget(p);
-    assert!(b.b.other.shutdowns == 1 && b.b.other.written_n == 0, "C13.eof.shutdown_once: end-of-stream from the peer is propagated as one shutdown of the local side");
+    assert!(script().shutdowns == 1 && script().written_n == 0, "C13.eof.shutdown_once: end-of-stream from the peer is propagated as one shutdown of the local side");
     if slow {
         assert!(matches!(b.b.read_state, ReadState::ShuttingDown(0)), "C13.eof.shutting_down");
-        b.b.other.shutdown_result = Wr::Accept;
+        script().shutdown_result = Wr::Accept;
         let p = b.poll();
         core::mem::forget(p);
     }
@@ -332,7 +362,7 @@ fn b_relay_to_mux_single() {
     kani::assume(credit >= 1);
     let mut io = ScriptIo::new();
     io.rd[0] = Rd::Data;
-    io.rd_data[0] = data;
+    rd_data()[0] = data;
     io.rd_len[0] = 2;
     let (mut b, d, mut w) = setup(credit, io);
     let p = b.poll();
@@ -344,7 +374,7 @@ fn b_relay_to_mux_single() {
     core::mem::forget(m);
     assert!(out_empty(&mut w.tx_msg_rx), "C13.w.single");
     assert!(b.b.us.psh_send_remaining.load(Ordering::Relaxed) == credit - 1, "C13.w.credit: one unit of credit per frame sent");
-    assert!(b.b.other.consumed == 2 && matches!(b.b.write_state, WriteState::Transferring(2)), "C13.w.count: consumed from the local side == sent == counted");
+    assert!(script().consumed == 2 && matches!(b.b.write_state, WriteState::Transferring(2)), "C13.w.count: consumed from the local side == sent == counted");
     assert!(read_dir_has_wakeup(&b, &d) && write_dir_has_wakeup(&b), "C13.wakeup");
     core::mem::forget((b, d, w));
 }
@@ -359,10 +389,10 @@ fn b_relay_to_mux_coalesced() {
     let yz: [u8; 2] = kani::any();
     let mut io = ScriptIo::new();
     io.rd[0] = Rd::Data;
-    io.rd_data[0] = [x, 0];
+    rd_data()[0] = [x, 0];
     io.rd_len[0] = 1;
     io.rd[1] = Rd::Data;
-    io.rd_data[1] = yz;
+    rd_data()[1] = yz;
     io.rd_len[1] = 2;
     let (mut b, d, mut w) = setup(2, io);
     let p = b.poll();
@@ -373,7 +403,7 @@ fn b_relay_to_mux_coalesced() {
     assert!(seen.op == 4 && seen.id == A_ID && m.len() == 8 && m[5] == x && m[6] == yz[0] && m[7] == yz[1], "C13.w2.push: the chunks arrive in order in one frame");
     core::mem::forget(m);
     assert!(out_empty(&mut w.tx_msg_rx) && b.b.us.psh_send_remaining.load(Ordering::Relaxed) == 1, "C13.w2.credit: one frame, one unit of credit");
-    assert!(b.b.other.consumed == 3 && matches!(b.b.write_state, WriteState::Transferring(3)), "C13.w2.count");
+    assert!(script().consumed == 3 && matches!(b.b.write_state, WriteState::Transferring(3)), "C13.w2.count");
     assert!(write_dir_has_wakeup(&b), "C13.wakeup");
     core::mem::forget((b, d, w));
 }
@@ -390,7 +420,7 @@ fn b_local_eof_sends_finish() {
     let mut io = ScriptIo::new();
     if with_data {
         io.rd[0] = Rd::Data;
-        io.rd_data[0] = [x, 0];
+        rd_data()[0] = [x, 0];
         io.rd_len[0] = 1;
         io.rd[1] = Rd::Eof;
     } else {
@@ -411,7 +441,7 @@ fn b_local_eof_sends_finish() {
     assert!(out_empty(&mut w.tx_msg_rx), "C13.leof.once");
     let n = if with_data { 1 } else { 0 };
     assert!(matches!(b.b.write_state, WriteState::Done(k) if k == n), "C13.leof.done");
-    assert!(matches!(b.b.read_state, ReadState::Transferring(0)) && b.b.other.shutdowns == 0, "C13.leof.half_close: the mux -> local direction is untouched");
+    assert!(matches!(b.b.read_state, ReadState::Transferring(0)) && script().shutdowns == 0, "C13.leof.half_close: the mux -> local direction is untouched");
     // a second poll sends nothing more
     let p = b.poll();
     core::mem::forget(p);
@@ -428,13 +458,13 @@ fn b_local_eof_sends_finish() {
 fn b_no_credit_no_frame() {
     let mut io = ScriptIo::new();
     io.rd[0] = Rd::Data;
-    io.rd_data[0] = [7, 8];
+    rd_data()[0] = [7, 8];
     io.rd_len[0] = 2;
     let (mut b, d, mut w) = setup(0, io);
     let p = b.poll();
     assert!(matches!(p, Poll::Pending), "C13.nocredit.waits");
     core::mem::forget(p);
-    assert!(out_empty(&mut w.tx_msg_rx) && b.b.other.consumed == 0, "C13.nocredit: without credit no frame is sent and no local byte is consumed (nothing lost)");
+    assert!(out_empty(&mut w.tx_msg_rx) && script().consumed == 0, "C13.nocredit: without credit no frame is sent and no local byte is consumed (nothing lost)");
     assert!(write_dir_has_wakeup(&b), "C13.wakeup");
     // credit arrives: the same bytes go out
     d.acknowledge(1);
@@ -456,7 +486,7 @@ fn b_peer_reset_fails_bridge() {
     let credit: u32 = kani::any();
     let mut io = ScriptIo::new();
     io.rd[0] = Rd::Data;
-    io.rd_data[0] = [7, 8];
+    rd_data()[0] = [7, 8];
     io.rd_len[0] = 2;
     io.shutdown_result = Wr::Accept;
     let (mut b, mut d, mut w) = setup(credit, io);
@@ -496,7 +526,7 @@ fn b_local_read_error_after_data() {
     let x: u8 = kani::any();
     let mut io = ScriptIo::new();
     io.rd[0] = Rd::Data;
-    io.rd_data[0] = [x, 0];
+    rd_data()[0] = [x, 0];
     io.rd_len[0] = 1;
     io.rd[1] = Rd::Err;
     let (mut b, d, mut w) = setup(3, io);
@@ -529,8 +559,8 @@ fn b_both_ended_completes() {
     let p = b.poll();
     assert!(matches!(p, Poll::Ready(Ok((2, 0)))), "C13.done.totals: completes with both byte counts once both directions have ended");
     core::mem::forget(p);
-    assert!(b.b.other.written_n == 2 && b.b.other.written[0] == b'a' && b.b.other.written[1] == b'b', "C13.done.data_before_eof: data queued before the end-of-stream is relayed first");
-    assert!(b.b.other.shutdowns == 1, "C13.done.shutdown_once");
+    assert!(script().written_n == 2 && script().written[0] == b'a' && script().written[1] == b'b', "C13.done.data_before_eof: data queued before the end-of-stream is relayed first");
+    assert!(script().shutdowns == 1, "C13.done.shutdown_once");
     let seen = next_seen(&mut w.tx_msg_rx);
     let seen2 = next_seen(&mut w.tx_msg_rx);
     assert!((seen.op == 3 && seen2 == NOTHING) || (seen.op == 1 && seen2.op == 3 && next_seen(&mut w.tx_msg_rx) == NOTHING), "C13.done.finish_once: one Finish (possibly after an Acknowledge)");
